@@ -60,6 +60,8 @@ fn main() {
         "C09" => { c01::run(&mut sink, prop, thorough, seed); typed::run_tt3(&mut sink, thorough, seed); streamraw::run_c09(&mut sink, thorough, seed); }
         "C20" => {
             // number-alphabet strings for Number::from_str + accessors, typed targets, whole documents, verbatim text
+            // (a build without arbitrary_precision is the "without the feature" side of op anynum: the number-level ops only)
+            if !cfg!(feature = "ap") { c06::number_near_misses(&mut sink, thorough, seed); anynum::run(&mut sink, thorough, seed); sink.finish(stats); return; }
             c06::run(&mut sink, thorough, seed);
             c06::exhaustive_number_alphabet(&mut sink, thorough);
             c06::number_near_misses(&mut sink, thorough, seed);
